@@ -126,11 +126,30 @@ inductive SrcPlugin where
   | returnsText (t : Text)
 deriving Repr
 
+/-- one word of a registry entry's `SRC.Words6To9` dict: key, `Description`, `AdditionalDataPropSource` -/
+structure RegWord where
+  num : Text
+  desc : Option Text
+  prop : Option Text
+deriving Repr, DecidableEq
+
+/-- one entry of the message registry (`registry.pels`): `SRC.ReasonCode`, `SRC.Type`, `Documentation.Message`,
+    `Documentation.MessageArgSources`, `SRC.Words6To9` (absent or empty = `[]`; in insertion order) -/
+structure RegEntry where
+  reasonCode : Option Text
+  type : Option Text
+  message : Text
+  argSources : Option (List Text)
+  words : List RegWord
+deriving Repr, DecidableEq
+
 structure SrcEnv where
   callout : Text → CalloutPlugin      -- by lower-case creator id
   /-- for creator `o` the module `osrc` forwards to `srcparsers.o<xx>00` (or `bsrc` for BC codes): by that module name;
       for other creators: by `<creator>src` -/
   src : Text → SrcPlugin
+  /-- `pel.peltool.src.registry.pels` -/
+  registry : List RegEntry := []
 
 def procDescription (env : SrcEnv) (creator : Text) (allowPlugins : Bool) (proc : Text) : List (Text × J) :=
   if !allowPlugins then [] else
@@ -208,7 +227,133 @@ def srcDetails (env : SrcEnv) (creator : Text) (ascii : Text) (hexwords : List T
     | .bad => .fail
     | .unsupported => .unsupported
 
-/-- `SRC.toJSON`; the message registry is a parameter that is empty in this model (no "Error Details") -/
+/-! ### the message registry ("Error Details") -/
+
+/-- outcome of a piece of Python code: a value, an exception, or a construct outside the modelled subset -/
+inductive PyR (α : Type) where
+  | ok (a : α)
+  | fail
+  | unsupported
+deriving Repr, DecidableEq
+
+/-- the test of `Registry.getErrorMessage` for one entry -/
+def RegEntry.isMatch (e : RegEntry) (code ty : Text) : Bool :=
+  match e.reasonCode with
+  | none => false                                         -- "ReasonCode" not in pel["SRC"]
+  | some rc => e.type.getD (s "BD") == ty && isInfix code rc   -- .get("Type", "BD") == srcType; `code in ReasonCode`
+
+/-- `Registry.getErrorMessage`: the first matching entry in list order -/
+def regLookup (reg : List RegEntry) (code ty : Text) : Option RegEntry := reg.find? (fun e => e.isMatch code ty)
+
+/-- `self.hexData[n - 2]` for a non-negative `n` (Python indexing: a negative index counts from the end, out of range
+    raises IndexError = `none`) -/
+def pyWord (words : List Nat) (n : Nat) : Option Nat :=
+  if 2 ≤ n then words[n - 2]?
+  else if 2 ≤ words.length + n then words[words.length + n - 2]?
+  else none
+
+/-- Python `hex(v)` for a non-negative int -/
+def pyHex (v : Nat) : Text := ox (fmtHexL 1 v)
+
+/-- `hex(self.hexData[int(arg[-1]) - 2])` -/
+def argWord (words : List Nat) (src : Text) : PyR Text :=
+  match src.getLast? with
+  | none => .fail                                 -- arg[-1] on '': IndexError
+  | some c =>
+    if 128 ≤ c then .unsupported                  -- int() accepts non-ASCII decimal digits: not modelled
+    else if 48 ≤ c ∧ c ≤ 57 then
+      match pyWord words (c - 48) with
+      | some w => .ok (pyHex w)
+      | none => .fail                             -- IndexError
+    else .fail                                    -- ValueError
+
+def argWords (words : List Nat) : List Text → PyR (List Text)
+  | [] => .ok []
+  | src :: r =>
+    match argWord words src with
+    | .ok a => (match argWords words r with
+      | .ok as => .ok (a :: as)
+      | .fail => .fail
+      | .unsupported => .unsupported)
+    | .fail => .fail
+    | .unsupported => .unsupported
+
+/-- `re.sub(r'%[1-9]', "{}", message).format(*args)` for a message without `{` and `}`: the k-th placeholder (by
+    occurrence) receives the k-th argument; `none` = IndexError (more placeholders than arguments) -/
+def fillMsg : Text → List Text → Option Text
+  | [], _ => some []
+  | [c], _ => some [c]
+  | c :: d :: rest, args =>
+    if c = 37 ∧ 49 ≤ d ∧ d ≤ 57 then
+      match args with
+      | [] => none
+      | a :: as => (fillMsg rest as).map (a ++ ·)
+    else (fillMsg (d :: rest) args).map (c :: ·)
+
+def hasBrace (t : Text) : Bool := t.any (fun c => c == 123 || c == 125)
+
+/-- `SRC.buildMessage` for the entry found -/
+def buildMessage (e : RegEntry) (words : List Nat) : PyR Text :=
+  match e.argSources with
+  | none => .ok e.message
+  | some srcs =>
+    match argWords words srcs with
+    | .fail => .fail
+    | .unsupported => .unsupported
+    | .ok args =>
+      if hasBrace e.message then .unsupported     -- str.format field syntax beyond the substituted `{}`: not modelled
+      else match fillMsg e.message args with
+        | some m => .ok m
+        | none => .fail
+
+/-- `int(num)` for a non-empty string of ASCII digits (anything else: `none`) -/
+def parseDigits (t : Text) : Option Nat :=
+  if t ≠ [] ∧ t.all (fun c => 48 ≤ c && c ≤ 57) then some (t.foldl (fun a c => a * 10 + (c - 48)) 0) else none
+
+/-- the loop of `SRC.buildHexwordDescs` (`acc` = the OrderedDict `descriptions`) -/
+def wordDescs (words : List Nat) : List RegWord → List (Text × J) → PyR (List (Text × J))
+  | [], acc => .ok acc
+  | w :: r, acc =>
+    match w.desc with
+    | none => wordDescs words r acc                   -- no "Description": skipped before anything is evaluated
+    | some d =>
+      match parseDigits w.num with
+      | none => .unsupported                          -- int() of signs, blanks, underscores, other digits: not modelled
+      | some n =>
+        match pyWord words n with
+        | none => .fail                               -- IndexError
+        | some v =>
+          match w.prop with
+          | none => .fail                             -- KeyError 'AdditionalDataPropSource'
+          | some p => wordDescs words r (objSet acc p (.arr [jnum v, jstr d]))
+
+inductive ErrDet where
+  | none                                   -- no "Error Details" member
+  | some (members : List (Text × J))
+  | fail                                   -- an exception leaves `toJSON`: the whole PEL is rejected
+  | unsupported
+
+/-- `SRC.getErrorDetails(out, asciiString[4:8], asciiString[0:2])`: the value of `out["Error Details"]`, if any -/
+def errorDetails (reg : List RegEntry) (ascii : Text) (words : List Nat) : ErrDet :=
+  match regLookup reg (s "0x" ++ (ascii.drop 4).take 4) (ascii.take 2) with
+  | none => .none                                     -- details = {}: message '' 
+  | some e =>
+    match buildMessage e words with
+    | .fail => .fail
+    | .unsupported => .unsupported
+    | .ok msg =>
+      if msg = [] then .none else
+      match wordDescs words e.words [] with
+      | .fail => .fail
+      | .unsupported => .unsupported
+      | .ok descs => .some (objUpdate [kv "Message" (jstr msg)] descs)
+
+/-- the member list contributed to the SRC document -/
+def ErrDet.members : ErrDet → List (Text × J)
+  | .some ms => [kv "Error Details" (.obj ms)]
+  | _ => []
+
+/-- `SRC.toJSON`; the message registry is `env.registry` -/
 def decodeSRC (T : Tables) (env : SrcEnv) (h : SecHdr) (creator : Text) (allowPlugins : Bool) : Rd (J × Text) := do
   let verB ← getMem 1
   let flags ← getInt 1
@@ -222,6 +367,7 @@ def decodeSRC (T : Tables) (env : SrcEnv) (h : SecHdr) (creator : Text) (allowPl
   let isBmc := srcType = s "BD" ∨ srcType = s "11"
   let isHb := srcType = s "BC"
   let w (i : Nat) : Nat := words.getD i 0
+  let ed : ErrDet := if isBmc ∨ isHb then errorDetails env.registry ascii words else .none
   let base : List (Text × J) := [
     kv "Section Version" (jnum h.ver), kv "Sub-section type" (jnum h.sub),
     kv "Created by" (jstr (displayCompID T h.comp creator)),
@@ -233,9 +379,14 @@ def decodeSRC (T : Tables) (env : SrcEnv) (h : SecHdr) (creator : Text) (allowPl
     (if isBmc then [kv "Backplane CCIN" (jstr (fmtHex 4 (w 1 >>> 16))),
                     kv "Terminate FW Error" (boolStr (w 3 &&& 0x20000000 != 0))] else []) ++
     (if isBmc ∨ isHb then [kv "Deconfigured" (boolStr (w 3 &&& 0x02000000 != 0)),
-                           kv "Guarded" (boolStr (w 3 &&& 0x01000000 != 0))] else []) ++
+                           kv "Guarded" (boolStr (w 3 &&& 0x01000000 != 0))] ++ ed.members else []) ++
     [kv "Valid Word Count" (jstr (ox (fmtHex 2 wordCount))),
      kv "Reference Code" (jstr (stripSp ascii))]
+  -- an exception in `getErrorDetails` is raised before anything below is evaluated
+  match ed with
+  | .fail => Rd.fail .other
+  | .unsupported => Rd.fail .unsupported
+  | _ =>
   -- `for i in range(2, wordCount + 1)`: i ≥ 10 indexes hexData[i] out of range
   if wordCount ≥ 10 then Rd.fail .other else
   let idxs := (List.range (wordCount + 1)).drop 2
